@@ -391,13 +391,7 @@ func (fr *frame) visit(instr ssa.Instruction) int {
 		panic(targetPanic{v: v, msg: "panic: " + m.panicString(v), stack: m.stackString()})
 	case *ssa.Send:
 		ch, _ := fr.get(instr.Chan).(*Chan)
-		if ch == nil {
-			m.unsupported("send on nil channel")
-		}
-		if ch.Closed {
-			panic(targetPanic{msg: "send on closed channel", stack: m.stackString()})
-		}
-		ch.Buf = append(ch.Buf, fr.get(instr.X))
+		m.chanSend(ch, fr.get(instr.X))
 	case *ssa.Store:
 		m.store(fr.get(instr.Addr), fr.get(instr.Val))
 	case *ssa.If:
@@ -424,9 +418,10 @@ func (fr *frame) visit(instr ssa.Instruction) int {
 		fn, args := fr.prepareCall(&instr.Call)
 		fr.defers = append(fr.defers, deferred{fn, args})
 	case *ssa.Go:
-		m.unsupported("go statement")
+		fn, args := fr.prepareCall(&instr.Call)
+		m.spawn(fn, args)
 	case *ssa.MakeChan:
-		fr.setReg(instr, &Chan{Elem: instr.Type().Underlying().(*types.Chan).Elem()})
+		fr.setReg(instr, &Chan{Elem: instr.Type().Underlying().(*types.Chan).Elem(), Cap: m.ConcInt(fr.get(instr.Size))})
 	case *ssa.Alloc:
 		p := new(Value)
 		*p = m.zero(deref(instr.Type()))
@@ -758,30 +753,32 @@ func (m *Machine) selectOp(fr *frame, instr *ssa.Select) Value {
 	chosen := -1
 	var recvd Value
 	recvOk := false
-	for i, st := range instr.States {
-		ch, _ := fr.get(st.Chan).(*Chan)
-		if ch == nil {
-			continue
+	m.yield()
+	ready := m.selectReady(fr, instr)
+	if len(ready) == 0 && instr.Blocking {
+		m.block(func() bool { ready = m.selectReady(fr, instr); return len(ready) > 0 }, "select")
+	}
+	if len(ready) > 0 {
+		k := 0
+		if len(ready) > 1 && m.concurrent() {
+			k = m.Choose(len(ready)) // Go picks uniformly among the ready cases
 		}
+		chosen = ready[k]
+		st := instr.States[chosen]
+		ch := fr.get(st.Chan).(*Chan)
 		if st.Dir == types.RecvOnly {
 			if len(ch.Buf) > 0 {
-				chosen, recvd, recvOk = i, ch.Buf[0], true
+				recvd, recvOk = ch.Buf[0], true
 				ch.Buf = ch.Buf[1:]
-				break
-			}
-			if ch.Closed {
-				chosen = i
-				break
+				ch.Taken++
 			}
 		} else {
 			if ch.Closed {
 				panic(targetPanic{msg: "send on closed channel", stack: m.stackString()})
 			}
-			m.unsupported("select send")
+			ch.Buf = append(ch.Buf, fr.get(st.Send))
+			ch.Sent++
 		}
-	}
-	if chosen < 0 && instr.Blocking {
-		m.unsupported("blocking select with no ready case")
 	}
 	r := Tuple{m.C.BV(64, uint64(int64(chosen))), m.C.Bool(recvOk)}
 	for i, st := range instr.States {
